@@ -67,6 +67,8 @@ impl fmt::Debug for Builtin {
 
 impl Builtin {
     pub fn new(body: fn(ArgumentResult, &mut Visitor) -> SassResult<Value>) -> Builtin {
+        #[cfg(grass_verif)]
+        crate::verif::point(crate::verif::Site::BuiltinId);
         let count = FUNCTION_COUNT.fetch_add(1, Ordering::Relaxed);
         Self(body, count)
     }
